@@ -22,6 +22,7 @@ Definition committed_census : list census_row :=
    ("h2.rs", "handle_header_state", false, true);
    ("h2.rs", "readable", true, true);
    ("h2.rs", "ensure_tls_flushed", true, false);
+   ("h2.rs", "remove_dead_stream", true, false);
    ("h2.rs", "finalize_write", true, false);
    ("h2.rs", "flush_pending_control_frames", false, true);
    ("h2.rs", "writable", false, true);
